@@ -674,6 +674,27 @@ def extra(ctx):
                  % (u[0], u[1]), finding_key="balance-" + u[0], failing_input_found=True,
                  detail={"case": {"id": "balance-unresolved-%d" % i, "desc": {"kind": "unresolved-balance", "item": u}}})
 
+    # ---- round 7: potentially blocking channel operations reachable with a lock held (chanops.go)
+    chn = tbl.get("blocking_ops") or {}
+    if "rows" not in chn:
+        ctx.fail("translator", "tools/locktable produced no blocking_ops section (old binary? rebuild tools/bin/locktable)")
+    crows = chn.get("rows") or []
+    cbad = [r for r in crows if not r.get("reason")]
+    seen = set()
+    for r in cbad:
+        if r["key"] in seen:
+            continue
+        seen.add(r["key"])
+        same = [x for x in cbad if x["key"] == r["key"]]
+        ctx.fail("property-failure", "blocking channel operation under a lock: %s performs a %s on %s at %s while holding %s (reached from %s%s); a goroutine "
+                 "that waits there keeps those locks until the other side of the channel comes, and if that side needs one of them (a pending writer counts) nobody moves; "
+                 "not justified in tools/locktable/handover.json (blocking_ok)"
+                 % (r["fn"], r["op"], r["chan"], r["pos"], ", ".join(r["held"]), r["root"], "; %d more contexts" % (len(same) - 1) if len(same) > 1 else ""),
+                 finding_key="blocking:" + r["key"], failing_input_found=True,
+                 detail={"case": {"id": _hid("blocking", r["key"]), "desc": {"kind": "potentially blocking channel operation reachable with a non-empty must-held lock set",
+                                                                            "contexts": same,
+                                                                            "machine": "Props/C05.v, C05_blocking_send_under_lock_deadlocks"}}})
+
     # ---- search for a failing schedule
     stress = []
     if ctx.tier == "thorough":
@@ -693,9 +714,9 @@ def extra(ctx):
     checked_acc = [a for a in accesses if a["key"] not in known]
     acqs_all = tbl.get("acquisitions") or []
     n_exits = bal.get("exit_states_checked") or 0
-    ctx.extra_obligations += len(checked_acc) + len(live) + 1 + len(acqs_all) + n_exits + 1
+    ctx.extra_obligations += len(checked_acc) + len(live) + 1 + len(acqs_all) + n_exits + 1 + len(crows) + 1
     ctx.extra_discharged += ((len(checked_acc) - n_bad_new) + (len(live) - len(bad_orders)) + (0 if unresolved else 1) + (len(acqs_all) - (nbadgate or 0))
-                             + max(0, n_exits - len(brows)) + (0 if bunres else 1))
+                             + max(0, n_exits - len(brows)) + (0 if bunres else 1) + (len(crows) - len(cbad)) + (0 if cbad else 1))
     fields = sorted({a["field"] for a in accesses})
     ctx.extra_coverage.update({
         "exhaustive": False,
@@ -729,6 +750,12 @@ def extra(ctx):
             "fresh_receiver_accesses_skipped": sorted((tbl.get("fresh_receiver_accesses_skipped") or {}).keys()),
             "known_findings_still_present": sorted(known & present),
             "known_findings_no_longer_present": sorted(known - present),
+            # round 7: potentially blocking channel operations reachable with a lock held
+            "blocking_ops_under_a_lock": {
+                "sites": len(crows), "not_justified": len(cbad),
+                "justified": sorted({(r["key"], r["reason"][:160]) for r in crows if r.get("reason")}),
+                "justifications_not_needed": chn.get("blocking_ok_entries_not_needed") or [],
+            },
             # round 6: lock balance per function path
             "balance": {
                 "functions_analysed": bal.get("functions_analysed"),
